@@ -263,7 +263,12 @@ def parse_cat(text):
                 raise CatError('two unbracketed slashes at one level in %r' % text)
             return ('fn', left, sl, right)
         return left
-    s = text.replace(' ', '')     # blanks never change a category's value (C05)
+    # blanks next to a delimiter never change a category's value (C05); a blank inside a name or inside the text of a
+    # feature cuts that token in two for the reader
+    import re as _re
+    s = _re.sub(r'\s*([\[\]\(\)/\\|<>])\s*', r'\1', text.strip())
+    if _re.search(r'\s', s):
+        raise CatError('blank inside an atom or feature in %r' % text)
     if not s:
         raise CatError('empty category %r' % text)
     c = cat()
